@@ -361,7 +361,7 @@ func checkWriterGates(p *Program, r *Report) {
 			}
 			n++
 			var key *Term
-			for k := range s.St.facts {
+			for _, k := range sortedFactKeys(s.St) {
 				s.St.fterm[k].walk(func(u *Term) {
 					if u.Op == "pcall" && u.Aux == "method:(record).key" && u.Args[0] == rec {
 						key = u
